@@ -627,9 +627,9 @@ package flags
 //@   loop 2 invariant nsName(g, namespaceDelimiter, longName) == nsName(option.group, namespaceDelimiter, option.LongName)
 //@   loop 2 invariant longName != ""
 //@   loop 2 decreases ite(g == nil, 0, gdepth(g) + 1)
-//@   ensures[C07,C08,C13] len(option.LongName) == 0 ==> r == ""
+//@   ensures[C07,C08,C13,C19] len(option.LongName) == 0 ==> r == ""
 //@   ensures[C17] len(option.LongName) != 0 ==> r != ""
-//@   ensures[C07,C08,C13] len(option.LongName) != 0 ==> r == nsName(option.group, parserOf(option.group).NamespaceDelimiter, option.LongName)
+//@   ensures[C07,C08,C13,C19] len(option.LongName) != 0 ==> r == nsName(option.group, parserOf(option.group).NamespaceDelimiter, option.LongName)
 //@   assigns nothing
 
 // ===================================================================
@@ -839,7 +839,7 @@ package flags
 //@   loop 2 invariant envName(g, namespaceDelimiter, key) == envName(option.group, namespaceDelimiter, option.EnvDefaultKey)
 //@   loop 2 decreases ite(g == nil, 0, gdepth(g) + 1)
 //@   ensures[C05] len(option.EnvDefaultKey) == 0 ==> r == ""
-//@   ensures[C05] len(option.EnvDefaultKey) != 0 ==> r == envName(option.group, parserOf(option.group).EnvNamespaceDelimiter, option.EnvDefaultKey)
+//@   ensures[C05,C19] len(option.EnvDefaultKey) != 0 ==> r == envName(option.group, parserOf(option.group).EnvNamespaceDelimiter, option.EnvDefaultKey)
 //@   assigns nothing
 
 // The values clearDefault applies when nothing prevented defaults: the
